@@ -38,6 +38,19 @@ def simulate_plan(model, info, art):
                 if [m.command for m in msgs] != ["a", "b"] or received != want or sim.return_value != "done":
                     return "confirmed", (f"{nh} handlers (oldest first) accepting {accepts} returning {results}: plan received {received} "
                                          f"(documented {want}), messages {[m.command for m in msgs]}, return_value {sim.return_value!r}")
+    # a simulator that is used again: return_value is the return value of the plan simulated last, also when that is None
+    sim = RunEngineSimulator()
+
+    def first():
+        yield Msg("a")
+        return "done"
+
+    def second():
+        yield Msg("b")
+    sim.simulate_plan(first())
+    sim.simulate_plan(second())
+    if sim.return_value is not None:
+        return "confirmed", f"two plans on one simulator (returning 'done', then None): return_value {sim.return_value!r} after the second"
     return "contradicted", "no deviation on plans with 2 messages and up to 2 handlers"
 
 
@@ -53,11 +66,19 @@ class Checked(Dev):
             raise ValueError("limit")
 
 
+class AsyncChecked(Dev):
+    async def check_value(self, v):
+        self.calls.append(v)
+        if self.limit is not None and v > self.limit:
+            raise ValueError("limit")
+
+
 def check_limits(model, info, art):
+  for cls in (Checked, AsyncChecked):
     for cmds in itertools.product(["set", "read"], repeat=3):
         for objs in itertools.product(["m", "x"], repeat=3):
             for vals in itertools.product([1, 9], repeat=3):
-                m, x = Checked("m", limit=5), Dev("x")
+                m, x = cls("m", limit=5), Dev("x")
                 plan = [Msg(c, {"m": m, "x": x}[o], v) for c, o, v in zip(cmds, objs, vals)]
                 with warnings.catch_warnings(record=True) as rec:
                     warnings.simplefilter("always")
@@ -76,5 +97,5 @@ def check_limits(model, info, art):
                             break
                 nwarn = 1 if any(c == "set" and o == "x" for c, o in zip(cmds, objs)) else 0
                 if m.calls != exp_calls or raised != exp_raise or (not exp_raise and len(rec) != nwarn):
-                    return "confirmed", f"plan {list(zip(cmds, objs, vals))}: check_value calls {m.calls} (documented {exp_calls}), raised={raised} (documented {exp_raise}), warnings={len(rec)}"
-    return "contradicted", "no deviation on plans with 3 messages"
+                    return "confirmed", f"{cls.__name__} device, plan {list(zip(cmds, objs, vals))}: check_value calls {m.calls} (documented {exp_calls}), raised={raised} (documented {exp_raise}), warnings={len(rec)}"
+  return "contradicted", "no deviation on plans with 3 messages (synchronous and asynchronous check_value)"
